@@ -23,13 +23,15 @@ func init() {
 			"C07.c ORD: Store.check resumes a persisted plan (read → LastOpDone → execute or remove) before it sweeps temporary directories; plan.WriteToFile is write-tmp → sync → rename; executeReapPlan removes the plan file only after Execute and the directory sync returned nil. " +
 			"C07.d TABLE (cross-check, reported as notes): the resume sites of a persisted plan and their guards. " +
 			"C07.e DECIDE/ORD: the executor operations have the idempotent semantics the replay model assumes — Rename (src gone and dst present is success), Remove (missing is success), RemoveAll (= os.RemoveAll), WriteMeta (a directory that was renamed away is success), Checkpoint (each existing WAL moved to <db>-wal and folded after a successful move; nothing left is success), Checker.RenameDone (src gone and dst present). " +
-			"C07.f PLAN: the reap plan is extracted from reapInternal's SSA (operation kinds in reachability order, argument roles: full snapshot directory and database, WAL list = full's then each newer snapshot's WAL files, directories of newer / older snapshots, published directory; branch conditions), instantiated for every store shape up to a bound (0–1 older, 0–2 WALs in the full snapshot, 0–2 incrementals with 1–2 WALs; thorough: 0–2 older) and replayed on an abstract file system in which database files carry the ordered list of folded WAL segments: a crash after every file-system effect — inside the multi-WAL checkpoint and inside directory removals too — then the resume of Store.check (nothing if the last operation is done, else the whole plan), thorough: a second crash after every effect of the resumed run; the final state must be exactly one snapshot holding every segment in order, a checksum of that content and the new meta.",
+			"C07.f PLAN: the reap plan is extracted from reapInternal's SSA (operation kinds in reachability order, argument roles: full snapshot directory and database, WAL list = full's then each newer snapshot's WAL files, directories of newer / older snapshots, published directory; branch conditions), instantiated for every store shape up to a bound (0–1 older, 0–2 WALs in the full snapshot, 0–2 incrementals with 1–2 WALs; thorough: 0–2 older) and replayed on an abstract file system in which database files carry the ordered list of folded WAL segments: a crash after every file-system effect — inside the multi-WAL checkpoint and inside directory removals too — then the resume of Store.check (nothing if the last operation is done, else the whole plan), thorough: a second crash after every effect of the resumed run; the final state must be exactly one snapshot holding every segment in order, a checksum of that content and the new meta. " +
+			"C07.g ORD: NewStore calls Store.check (the resume of a persisted plan) before anything scans the snapshot directory (getSnapshots, Scan, List, Len …).",
 		NotCovered: []string{"the resolved database bytes after a reap (the model tracks which segments were folded, in which order, not page contents)", "SQLite's and the file system's own behaviour at a crash (torn writes inside one operation)", "index/term values written into the meta"},
 		Run:        runC07,
 	})
 }
 
 func runC07(c *core.Ctx) {
+	c07g(c)
 	c07ReapReplay(c)
 	c07Executor(c)
 	pk := c.P.Pkg("snapshot/plan")
